@@ -130,7 +130,9 @@ CHECKS = {
          "Decode.process_raw and validated call by call by TLC (Trace_Tracker) against the model (whole table incl. callsign, "
          "velocity, altitude, Comm-B values) and against the property's own predicates with ground truth; the decoder process loop "
          "Decode.run is specified separately (DecodeLoop: TLC safety + liveness over all send/poll interleavings, one schedule per "
-         "transition of its state graph stepped through the real loop, every step validated by TLC; deviations there are MODEL-DRIFT)",
+         "transition of its state graph stepped through the real loop, every step validated by TLC; deviations there are MODEL-DRIFT) "
+         "and so is the viewer (ScreenSM); two unbounded statements are TLAPS proofs re-run by the check: the staleness bound for all time "
+         "stamps (TrackerProofs, quick) and the loop's publish-after-processing invariant for any number of batches (DecodeLoopProofs, thorough)",
          "Spec: ~0.5M states / 9M transitions per start place (quick: 3 places at depth 6; thorough: 6 at depth 7). Code: 600 (thorough "
          "12 000) histories of 8-30 (80) steps, 2-4 aircraft, every type code, Comm-B incl. unknown addresses, hex case upper/lower/"
          "mixed, chunks spanning 0.5-250 s, long position-less stretches. Loop: 1.7 k (thorough 6 k) schedules, 29 k (146 k) steps.",
